@@ -5,6 +5,7 @@ semantics for the analysed code (evaluation order and the number of evaluations 
 
   C1  not (a OP b)                      -> a NEG(OP) b        for OP in ==, !=, is, is not, in, not in (single comparison)
   C2  if not c: A else: B               -> if c: B else: A    (only when an else branch exists; `elif` chains included)
+  C2b if a != b: A else: B              -> if a == b: B else: A   (likewise for `is not`, `not in`)
   C3  t = e ; return t                  -> return e           when t is a local assigned exactly once and read exactly once
   C4  not not c  in a test position     -> c
 
@@ -43,6 +44,11 @@ class _Canon(ast.NodeTransformer):
         node.test = self._test(node.test)
         if node.orelse and isinstance(node.test, ast.UnaryOp) and isinstance(node.test.op, ast.Not):
             node.test = node.test.operand
+            node.body, node.orelse = node.orelse, node.body
+        # C2b: a negative comparison with an else branch is the positive comparison with the branches swapped
+        if node.orelse and isinstance(node.test, ast.Compare) and len(node.test.ops) == 1 and isinstance(node.test.ops[0], (ast.IsNot, ast.NotEq, ast.NotIn)):
+            t = node.test
+            node.test = ast.copy_location(ast.Compare(left=t.left, ops=[_NEG[type(t.ops[0])]()], comparators=t.comparators), t)
             node.body, node.orelse = node.orelse, node.body
         return node
 
